@@ -120,7 +120,18 @@ def run_case(case):
                      % (smt.root_hash.hex()[:16], sorted(model.items()), want.hex()[:16]))
         if not model and smt.root_hash != initial_root:
             res.fail("cleared-root-not-initial", "everything is cleared but the root differs from the initial root")
-        clone = SparseMerkleTree.from_db(smt.db, smt.root_hash, key_size=ks, default=default)
+        # from_db's key_size defaults to 32 and the constructor's defaults are key_size=32, default=b"": leave out what
+        # equals the default, as callers do
+        kw = {}
+        if ks != 32:
+            kw["key_size"] = ks
+        if default != b"":
+            kw["default"] = default
+        try:
+            clone = SparseMerkleTree.from_db(smt.db, smt.root_hash, **kw)
+        except Exception as e:  # noqa
+            res.fail("from-db-differs", "from_db(db, root%s) raised %r" % ("".join(", %s=..." % a for a in kw), e))
+            clone = smt
         for k in pool:
             wantv = model.get(k, default)
             try:
@@ -135,6 +146,15 @@ def run_case(case):
             if v is not False:
                 if (wantv == b"" and v is not None) or (wantv != b"" and v != wantv):
                     res.fail("wrong-value", "get(%r) = %r, last written %r (default %r)" % (k, v, model.get(k), default))
+                # the subscript form is the same read
+                try:
+                    sv = smt[k]
+                except KeyError:
+                    sv = None
+                except Exception as e:  # noqa
+                    sv = e
+                if sv != v:
+                    res.fail("wrong-value", "tree[%r] = %r but get(%r) = %r" % (k, sv, k, v))
                 e1, e2 = smt.exists(k), (k in smt)
                 res.emit("smt.exists 0 %s" % hx(k), str(e1))
                 if e1 != (wantv != b"") or e2 != e1:
